@@ -173,7 +173,7 @@ def run(ctx):
 
 
 def _bfs(ctx, label):
-    return engine.bfs(ctx, _expand, [()], label=label, max_states=100000, cap_s=2400 if _G['ctx'].thorough else 300)
+    return engine.bfs(ctx, _expand, [()], label=label, max_states=100000, cap_s=7200 if _G["ctx"].thorough else 1800)
 
 
 def _merge(total, agg):
